@@ -80,6 +80,7 @@ pub fn enrich(mut b: Built, s: &mut S) -> Built {
         ch.operators = vec!["n1".into(), "ghost".into(), "n3".into()];
         ch.half_operators = vec!["n2".into()];
         ch.voices = vec!["n2".into(), "n1".into(), "phantom".into()];
+        ch.protecteds = vec!["n2".into(), "n0".into()];
         b.cfg.channels.push(ch);
         b.prof.chans.push("&cfg".into());
         for i in 0..b.prelude_users {
@@ -657,8 +658,18 @@ fn c10_build(cfg: &[u16]) -> Built {
         (K::Kick, 3),
         (K::NewUser, 3),
         (K::CapPost, 3),
+        // an IRC operator has no more right to speak into a channel than anybody else
+        (K::Oper, 3),
     ]);
-    enrich(Built { cfg: CfgSpec::default(), prof, prelude_users: users, setup }, &mut s)
+    let mut prof = prof;
+    let mut c = CfgSpec::default();
+    c.opers.push(OperSpec { name: "op0".into(), password: "operpw0".into(), mask: None });
+    prof.oper_names.push(("op0".into(), "operpw0".into()));
+    // the outside sender is sometimes an IRC operator from the start
+    if s.chance(30) {
+        setup.push((format!("n{}", users - 1), "OPER op0 operpw0".into()));
+    }
+    enrich(Built { cfg: c, prof, prelude_users: users, setup }, &mut s)
 }
 
 fn c10_owns(d: &Disc, out: &StepOut, _t: &Trace) -> bool {
@@ -1496,6 +1507,10 @@ pub fn c03_config(k: usize) -> (CfgSpec, Vec<String>, Vec<String>) {
         password: password.map(|s| s.to_string()),
         mask: mask.map(|s| s.to_string()),
     };
+    // (a nameless placeholder entry in front of the real one in a quarter of the configurations)
+    if k % 8 >= 2 && (k / 4) % 2 == 1 {
+        c.users.push(crate::cfgspec::UserSpec { name: "".into(), nick: "placeholder".into(), password: None, mask: None });
+    }
     match k % 8 {
         0 => {}
         1 => {
